@@ -22,6 +22,9 @@ type universe struct {
 	nset     int // keys[0:nset] may be inserted by transitions; the rest only occur in the fixed argument collections
 	val      func(j int) value.Value
 	valNames map[string]int
+	byInt    map[int64]int
+	byStr    map[string]int
+	intVals  bool
 }
 
 func safeInspect(v value.Value) (s string) {
@@ -38,12 +41,21 @@ func safeInspect(v value.Value) (s string) {
 
 func (u *universe) finish() {
 	u.byName = map[string]int{}
+	u.byInt = map[int64]int{}
+	u.byStr = map[string]int{}
 	u.names = nil
 	for i, f := range u.mk {
-		n := safeInspect(f())
+		v := f()
+		n := safeInspect(v)
 		u.names = append(u.names, n)
 		u.byName[n] = i
+		if v.IsSmallInt() {
+			u.byInt[int64(v.AsSmallInt())] = i
+		} else if str, ok := v.SafeAsReference().(value.String); ok {
+			u.byStr[string(str)] = i
+		}
 	}
+	u.intVals = u.val(1).IsSmallInt()
 	u.valNames = map[string]int{}
 	for j := 1; j <= 2; j++ {
 		u.valNames[safeInspect(u.val(j))] = j
@@ -55,6 +67,20 @@ func (u *universe) keyIdx(v value.Value) int {
 	if v.IsUndefined() {
 		return -1
 	}
+	if v.IsSmallInt() {
+		if i, ok := u.byInt[int64(v.AsSmallInt())]; ok {
+			return i
+		}
+		return -2
+	}
+	if v.IsReference() {
+		if str, ok := v.AsReference().(value.String); ok {
+			if i, ok := u.byStr[string(str)]; ok {
+				return i
+			}
+			return -2
+		}
+	}
 	if i, ok := u.byName[safeInspect(v)]; ok {
 		return i
 	}
@@ -64,6 +90,28 @@ func (u *universe) keyIdx(v value.Value) int {
 func (u *universe) valIdx(v value.Value) int {
 	if v.IsUndefined() {
 		return 0
+	}
+	if v.IsSmallInt() {
+		if n := int(v.AsSmallInt()); n == 1 || n == 2 {
+			if u.intVals {
+				return n
+			}
+		}
+		return 0
+	}
+	if v.IsReference() {
+		if str, ok := v.AsReference().(value.String); ok {
+			if u.intVals {
+				return 0
+			}
+			switch string(str) {
+			case "1":
+				return 1
+			case "2":
+				return 2
+			}
+			return 0
+		}
 	}
 	return u.valNames[safeInspect(v)]
 }
@@ -199,13 +247,22 @@ func tableOf(o vm.HashRecord) (t []value.PairOfValue, el, occ int, ok bool) {
 // stateKey is the canonical full internal state.
 func (k *mapKind) stateKey(o vm.HashRecord) string {
 	var b strings.Builder
+	u := k.u
+	ent := func(kv, vv value.Value) string {
+		ki, vi := u.keyIdx(kv), u.valIdx(vv)
+		if ki >= 0 && vi > 0 {
+			return fmt.Sprintf("k%d=%d", ki, vi)
+		}
+		return safeInspect(kv) + "=" + safeInspect(vv)
+	}
 	if t, el, occ, ok := tableOf(o); ok {
 		fmt.Fprintf(&b, "%T %d/%d/%d:", o, el, occ, len(t))
 		for i := range t {
 			p := &t[i]
 			switch {
 			case !p.Key().IsUndefined():
-				b.WriteString(safeInspect(p.Key()) + "=" + safeInspect(p.Value()) + ",")
+				b.WriteString(ent(p.Key(), p.Value()))
+				b.WriteByte(',')
 			case p.Value().IsUndefined():
 				b.WriteString("_,")
 			default:
@@ -216,7 +273,7 @@ func (k *mapKind) stateKey(o vm.HashRecord) string {
 	}
 	var ents []string
 	for p := range o.All() {
-		ents = append(ents, safeInspect(p.Key())+"="+safeInspect(p.Value()))
+		ents = append(ents, ent(p.Key(), p.Value()))
 	}
 	sort.Strings(ents)
 	fmt.Fprintf(&b, "%T %d:%s", o, o.Length(), strings.Join(ents, ","))
@@ -973,7 +1030,10 @@ func (s *mapSys) runOnce(hist []int, check bool) (key string, applicable bool, v
 }
 
 func (s *mapSys) Run(hist []int, check bool) (key string, applicable bool, vs []viol, expand bool, outcome string) {
-	key, applicable, vs, expand, outcome = s.runOnce(hist, check)
+	if s.shadow == nil {
+		return s.runOnce(hist, check)
+	}
+	key, applicable, vs, expand, outcome = safeRun(runner{s}, hist, check)
 	if s.shadow != nil && len(vs) > 0 {
 		// HashRecordOfValue is a type conversion of HashMapOfValue and every function delegates: when the same
 		// history fails the same oracle on HashMapOfValue, report the defect under the HashMapOfValue signature.
@@ -991,4 +1051,13 @@ func (s *mapSys) Run(hist []int, check bool) (key string, applicable bool, vs []
 		}
 	}
 	return
+}
+
+// runner exposes runOnce as a system (so that safeRun can recover its panics before the shadow comparison).
+type runner struct{ s *mapSys }
+
+func (r runner) Name() string      { return r.s.Name() }
+func (r runner) OpNames() []string { return r.s.OpNames() }
+func (r runner) Run(hist []int, check bool) (string, bool, []viol, bool, string) {
+	return r.s.runOnce(hist, check)
 }
